@@ -383,11 +383,13 @@ def check_stub_specimpl(ref, woven_text):
             if t not in my_defs or my_defs[t][0] != src_defs[t][0]:
                 raise UnitError("stub %s: spec fn `%s` used by its precondition is defined differently here than in unit %s" % (ref, t, uname))
 
-def build(name, repo, outdir):
-    """Weave unit `name`. Returns dict(path, functions=[...], rewrites, assumptions, linemap)."""
+def build(name, repo, outdir, hints=True):
+    """Weave unit `name`. Returns dict(path, functions=[...], rewrites, assumptions, linemap).
+    hints: add `@eqv-hint` bit-vector equality obligations for expression-level edits (rtok.add_eqv_hints)."""
     out = []
     funcs = []
     rewrites = []
+    eqv = []
 
     def cur_line():
         return "".join(out).count("\n") + 1
@@ -410,13 +412,27 @@ def build(name, repo, outdir):
             elif k == "extract":
                 label = section_label(sec)
                 ss, span = real_tokens(repo, sec, rewrites)
-                woven, info = rtok.transplant(sec["annot"], ss)
+                annot, hs = sec["annot"], []
+                if hints:
+                    try:
+                        annot, hs = rtok.add_eqv_hints(sec["annot"], ss)
+                    except Exception:
+                        annot, hs = sec["annot"], []
+                woven, info = rtok.transplant(annot, ss)
                 if rtok.erase(woven) != ss:
-                    raise UnitError("erasure mismatch in %s/%s" % (name, label))
+                    if hs:      # a hint that disturbs the weave is simply not used
+                        annot, hs = sec["annot"], []
+                        woven, info = rtok.transplant(annot, ss)
+                    if rtok.erase(woven) != ss:
+                        raise UnitError("erasure mismatch in %s/%s" % (name, label))
+                for h in hs:
+                    eqv.append(dict(h, function=label))
+                    rewrites.append({"rule": "EQV", "function": label, "from": h["old"],
+                                     "to": h["new"] + "  [not a rewrite of the code: the equality of the edited expression with the annotated one is added as a bit-vector proof obligation in front of the statement; dropped if it does not verify]"})
                 l0 = cur_line()
                 out.append("// ---- extracted %s :: %s  (%s)\n" % (sec["src"], sec["spec"],
                            "identical to annotated base" if info["identical"] else
-                           "CHANGED: %d edit(s), %d displaced annotation(s)" % (info["edits"], info["displaced"])))
+                           "CHANGED: %d edit(s), %d displaced annotation(s), %d proof hint(s) dropped with deleted code" % (info["edits"], info["displaced"], info.get("dropped", 0))))
                 out.append(woven if woven.endswith("\n") else woven + "\n")
                 funcs.append({"label": label, "kind": "extract", "src": sec["src"], "spec": sec["spec"],
                               "lines": [l0, cur_line() - 1], "info": info, "src_span": list(span),
@@ -462,8 +478,10 @@ def build(name, repo, outdir):
                 assumptions.append({"name": d[0], "reason": d[1], "line": i + 1})
             else:
                 unlisted.append({"line": i + 1, "text": ln.strip()})
+    hint_lines = [i + 1 for i, ln in enumerate(lines) if rtok.EQV_MARK in ln]
     return {"unit": name, "path": path, "functions": funcs, "rewrites": rewrites,
-            "assumptions": assumptions, "unlisted_hatches": unlisted, "text": text}
+            "assumptions": assumptions, "unlisted_hatches": unlisted, "text": text,
+            "eqv_hints": eqv, "hint_lines": hint_lines}
 
 
 def run_verus(path, rlimit=None, seed=None, timeout=900, extra=None):
@@ -571,6 +589,12 @@ if __name__ == "__main__":
     print("woven:", b["path"], "functions:", [(f["label"], f["kind"]) for f in b["functions"]])
     print("unlisted:", b["unlisted_hatches"])
     r = attribute(b, run_verus(b["path"], extra=sys.argv[2:]))
+    if b.get("hint_lines"):
+        print("eqv hints:", b["eqv_hints"])
+        if [d for d in r["diagnostics"] if d["class"] != "obligation" or d.get("line") in set(b["hint_lines"])]:
+            print("eqv hints not discharged -> re-woven without them")
+            b = build(name, repo, os.path.join(ROOT, "build", "dev"), hints=False)
+            r = attribute(b, run_verus(b["path"], extra=sys.argv[2:]))
     print("rc", r["rc"], "verified", r["verified"], "errors", r["errors"], "wall %.1f" % r["wall_s"])
     for d in r["diagnostics"]:
         print("[%s] %s fn=%s" % (d["class"], d["message"], d["function"]))
